@@ -133,6 +133,14 @@ pub fn oracle(req: &Req, got: &Resp) -> Result<(), String> {
             }
             field_equation(&name, &v)
         }
+        "k.point_const" => {
+            let i = idx(0);
+            let want = if i < 8 { crate::mops::edwards::dalek_torsion_generator().mul(&U256::from_u64(i as u64)) } else { Aff::basepoint() };
+            if b.len() != 128 {
+                return Err(format!("k.point_const: {}", got.short()));
+            }
+            crate::mops::edwards::coords_valid(b, &want).map_err(|e| format!("public point constant #{} (0..7 = EIGHT_TORSION[i] = i*T, 8 = Ed25519 basepoint, 9 = Ristretto basepoint): {}", i, e))
+        }
         "k.scalar" => {
             let nl = b[b.len() - 1] as usize;
             let bits = b[b.len() - 2] as usize;
